@@ -47,6 +47,21 @@ pub fn install_quiet_panic_hook() {
     });
 }
 
+/// Did a panic (message with ` @ file:line`, see the hook above) start inside the source of the library
+/// under test - and not in the harness, a dependency or std? Every workload stays inside the domain of
+/// its property, so such a panic means the operation the property speaks about did not complete: the
+/// safety net of `run_workers` reports it as a violation (with the workload as its witness) rather than as
+/// a harness error. Panics the monitors expect are caught next to the call and judged there.
+pub fn panicked_in_library_under_test(msg: &str) -> bool {
+    let Some((_, loc)) = msg.rsplit_once(" @ ") else { return false };
+    if loc.contains("/harness/") || loc.contains("/.cargo/") || loc.contains("/rustc/") || loc.contains("/rustlib/") {
+        return false;
+    }
+    ["barter/src/", "barter-data/src/", "barter-execution/src/", "barter-instrument/src/", "barter-integration/src/", "barter-macro/src/"]
+        .iter()
+        .any(|d| loc.contains(d))
+}
+
 /// Run `f`, converting a panic of the code under test into `Err(message)`.
 pub fn catch<T>(f: impl FnOnce() -> T) -> Result<T, String> {
     install_quiet_panic_hook();
@@ -95,6 +110,11 @@ where
                         let mut report = Report::new(&property);
                         match catch(|| work(i, n, &mut rng, &mut report)) {
                             Ok(()) => {}
+                            Err(msg) if panicked_in_library_under_test(&msg) => report.violation(
+                                "panic_in_library_code_under_the_generated_workload",
+                                format!("worker {i} of {n}: {msg}"),
+                                serde_json::json!({"kind": "rerun_workload", "worker": i, "workers": n, "seed": seed}),
+                            ),
                             Err(msg) => report.harness_errors.push(format!("worker {i} panicked: {msg}")),
                         }
                         report
@@ -148,4 +168,18 @@ pub fn shrink<T: Clone>(history: &[T], fails: impl Fn(&[T]) -> bool) -> Vec<T> {
         }
     }
     cur
+}
+
+#[cfg(test)]
+mod tests {
+    use super::panicked_in_library_under_test as lib;
+
+    #[test]
+    fn panic_locations_are_classified() {
+        assert!(lib("range start index 1 out of range @ /repo/barter-data/src/books/mod.rs:269"));
+        assert!(lib("boom @ /tmp/mw/repo/barter/src/engine/mod.rs:10"));
+        assert!(!lib("boom @ /verif/harness/src/bin/c06.rs:10"));
+        assert!(!lib("boom @ /root/.cargo/registry/src/x/tokio-1.0/src/time.rs:1"));
+        assert!(!lib("boom"));
+    }
 }
